@@ -68,6 +68,9 @@ class Contract:
         self.types = kw.pop('types', {})
         self.requires = kw.pop('requires', [])
         self.ensures = kw.pop('ensures', [])
+        # postconditions about the function's own internal calls (ghost call records): proved for the function,
+        # not visible to its callers
+        self.internal = kw.pop('internal', [])
         self.raises = kw.pop('raises', {})        # ExcName -> [post conditions when raised]
         self.modifies = kw.pop('modifies', [])
         self.ghost = kw.pop('ghost', {})          # name -> dict(args, sort, axioms=[...])
@@ -292,18 +295,7 @@ class Engine:
     def compare(self, st, op, a, b):
         """z3 Bool for a <op> b"""
         if isinstance(op, (ast.Is, ast.IsNot)):
-            if b.kind == 'none':
-                t = z3.BoolVal(a.kind == 'none') if a.kind != 'opt' else a.is_none
-                if a.kind == 'val':
-                    t = self.world.val_is_none(a.term)
-            elif a.kind == 'none':
-                return self.compare(st, op, b, a)
-            elif a.kind == 'ref' and b.kind == 'ref':
-                t = z3.BoolVal(a.nid == b.nid)
-            elif a.kind == 'bool' and b.kind == 'bool':
-                t = a.term == b.term
-            else:
-                raise EngineError('is-comparison of %s and %s' % (a.kind, b.kind))
+            t = self.identical(st, a, b)
             return z3.Not(t) if isinstance(op, ast.IsNot) else t
         if isinstance(op, (ast.In, ast.NotIn)):
             t = self.contains(st, b, a)
@@ -322,6 +314,33 @@ class Engine:
         else:
             x, y = to_int(a), to_int(b)
         return {ast.Lt: x < y, ast.LtE: x <= y, ast.Gt: x > y, ast.GtE: x >= y}[type(op)]
+
+    def identical(self, st, a, b):
+        """z3 Bool for `a is b` (object identity; scalars by value)"""
+        if a.kind == 'opt' and b.kind == 'opt':
+            return z3.Or(z3.And(a.is_none, b.is_none), z3.And(z3.Not(a.is_none), z3.Not(b.is_none), self.identical(st, a.val, b.val)))
+        if b.kind == 'opt':
+            a, b = b, a
+        if a.kind == 'opt':
+            if b.kind == 'none':
+                return a.is_none
+            return z3.And(z3.Not(a.is_none), self.identical(st, a.val, b))
+        if a.kind == 'none' or b.kind == 'none':
+            other = b if a.kind == 'none' else a
+            if other.kind == 'val':
+                return self.world.val_is_none(other.term)
+            return z3.BoolVal(a.kind == b.kind)
+        if a.kind == 'ref' and b.kind == 'ref':
+            return z3.BoolVal(a.nid == b.nid)
+        if a.kind == b.kind and a.kind in ('bool', 'int', 'str', 'cls', 'val', 'real'):
+            return a.term == b.term
+        if a.kind != b.kind and 'ref' in (a.kind, b.kind):
+            if {a.kind, b.kind} & {'dictval', 'arrval'}:
+                raise EngineError('identity against a by-value snapshot: use oldref(...) instead of old(...)')
+            return z3.BoolVal(False)
+        if a.kind != b.kind:
+            return z3.BoolVal(False)
+        raise EngineError('is-comparison of %s and %s' % (a.kind, b.kind))
 
     def equal(self, st, a, b):
         if a.kind == 'opt' or b.kind == 'opt':
@@ -352,6 +371,8 @@ class Engine:
             return z3.And([self.equal(st, x, y) for x, y in zip(a.items, b.items)] or [z3.BoolVal(True)])
         if a.kind == 'fn' and b.kind == 'fn':
             return self.world.to_fn(self, a) == self.world.to_fn(self, b)
+        if a.kind == 'ghost' and b.kind == 'ghost':
+            return a.term == b.term
         if a.kind == 'val' or b.kind == 'val':
             return self.world.to_val(self, a) == self.world.to_val(self, b)
         da, db = self.as_dict(st, a), self.as_dict(st, b)
@@ -370,6 +391,8 @@ class Engine:
         if aa is not None and ab is not None and aa[0] == ab[0]:
             k = fresh('k', I)
             return z3.And(aa[2] == ab[2], z3.ForAll([k], z3.Implies(z3.And(0 <= k, k < aa[2]), aa[1][k] == ab[1][k])))
+        if ({a.kind, b.kind} & {'ref', 'arrval', 'dictval', 'arrT'}) and ({a.kind, b.kind} & {'int', 'real', 'bool', 'str', 'none'}):
+            return z3.BoolVal(False)      # a container never equals a scalar
         if a.kind != b.kind:
             # values of different python types are unequal (int/real/bool handled above)
             if {a.kind, b.kind} <= {'str', 'int', 'real', 'bool', 'none', 'tuple', 'cls'}:
@@ -474,6 +497,8 @@ class Engine:
         return self.getattr_pure(st, base, e.attr)
 
     def getattr_pure(self, st, base, attr):
+        if getattr(base, 'frozen', False):
+            raise EngineError('attribute %r of old(object): select the field inside old(...)' % attr)
         if base.kind == 'ref':
             n = st.node(base)
             if isinstance(n, Obj):
@@ -498,6 +523,8 @@ class Engine:
                     return VStr('dtype:' + n.elem)
         if base.kind == 'mod':
             return VFn('builtin', name=base.name + '.' + attr)
+        if base.kind == 'fn' and base.fk == 'builtin' and base.name.split('.')[0] in ('np', 'numpy', 'scipy'):
+            return VFn('builtin', name=base.name + '.' + attr)      # sub-module: np.random.default_rng
         if base.kind == 'exc' and attr == 'args':
             return VTuple(base.args)
         return VFn('method', recv=base, name=attr)
@@ -507,6 +534,9 @@ class Engine:
         if isinstance(e.slice, ast.Slice):
             raise EngineError('spec: slices not supported')
         idx = self.sev(e.slice, st, bound)
+        if base.kind in ('int', 'real', 'bool', 'none'):
+            # spec expressions are total: indexing a scalar yields some real (guarded by the contract's implications)
+            return VReal(fresh('noindex', R))
         return self.index_pure(st, base, idx)
 
     def index_pure(self, st, base, idx):
@@ -579,9 +609,19 @@ class Engine:
     def sev_IfExp(self, e, st, bound):
         c = self.sbool(e.test, st, bound)
         a, b = self.sev(e.body, st, bound), self.sev(e.orelse, st, bound)
-        return self.ite(c, a, b)
+        return self.ite(c, a, b, st)
 
-    def ite(self, c, a, b):
+    def ite(self, c, a, b, st=None):
+        if st is not None and a.kind in ('ref', 'dictval', 'arrval', 'inner') and b.kind in ('ref', 'dictval', 'arrval', 'inner'):
+            from .world import VArrVal
+            if a.kind == 'ref' and b.kind == 'ref' and a.nid == b.nid:
+                return a
+            da, db = self.as_dict(st, a), self.as_dict(st, b)
+            if da is not None and db is not None and da[0] == db[0] and da[1] == db[1] and not da[5] and not db[5]:
+                return VDictVal(da[0], da[1], z3.If(c, da[2], db[2]), z3.If(c, da[3], db[3]))
+            aa, ab = self.as_arr(st, a), self.as_arr(st, b)
+            if aa is not None and ab is not None and aa[0] == ab[0]:
+                return VArrVal(aa[0], z3.If(c, aa[1], ab[1]), z3.If(c, aa[2], ab[2]))
         if a.kind == b.kind and a.kind in ('int', 'real', 'bool', 'str', 'cls', 'val'):
             return mk(a.kind, z3.If(c, a.term, b.term)) if a.kind != 'cls' else VCls(z3.If(c, a.term, b.term))
         if is_num(a) and is_num(b):
@@ -613,6 +653,19 @@ class Engine:
                 # at function entry old(e) is e itself
                 o = st.old if st.old is not None else st
                 return self.freeze(o, self.sev(e.args[0], o, bound))
+            if n == 'oldref':
+                # identity of the object an expression referred to at entry (for `is` comparisons only)
+                o = st.old if st.old is not None else st
+                v = self.sev(e.args[0], o, bound)
+                if v.kind == 'ref':
+                    r = VRef(v.nid)
+                    r.frozen = True
+                    return r
+                if v.kind == 'opt' and v.val.kind == 'ref':
+                    r = VRef(v.val.nid)
+                    r.frozen = True
+                    return VOpt(v.is_none, r)
+                return v
             if n == 'at':
                 # at('label', expr): value at a named snapshot (loop entry)
                 lab = e.args[0].value
@@ -625,7 +678,12 @@ class Engine:
             if n in ('all', 'any'):
                 return self.quant(n, e.args[0], st, bound)
             if n == 'len':
-                return self.length(st, self.sev(e.args[0], st, bound))
+                v = self.sev(e.args[0], st, bound)
+                try:
+                    return self.length(st, v)
+                except EngineError:
+                    # spec expressions are total: len() of a value without length is some integer
+                    return VInt(fresh('nolen', I))
             if n == 'abs':
                 v = self.sev(e.args[0], st, bound)
                 return mk(v.kind, z3.If(v.term >= 0, v.term, -v.term))
@@ -665,7 +723,10 @@ class Engine:
                 d = VDictVal(n.kkind, n.vkind, n.dom, n.val)
                 d.idom, d.inner = n.idom, n.inner
                 return d
-            raise EngineError('old()/at() of an object: select a field inside old(...)')
+            # an object: only its identity is meaningful outside its own state
+            o = VRef(v.nid)
+            o.frozen = True
+            return o
         if v.kind == 'tuple':
             return VTuple([self.freeze(st, x) for x in v.items], v.islist)
         if v.kind == 'opt':
